@@ -13,10 +13,9 @@ def WithinCap (c : Chan) : Prop :=
   | none => True
   | some n => c.queue.length ≤ n
 
-/-- The list discipline: no duplicate waiter, buffer within capacity, receivers
-    wait only on an empty buffer, senders wait only on a full one. -/
+/-- The list discipline: buffer within capacity, receivers wait only on an empty
+    buffer, senders wait only on a full one. -/
 structure Inv (c : Chan) : Prop where
-  nodup    : c.waitList.Nodup
   cap      : c.WithinCap
   recvWait : c.waitList ≠ [] → c.recvBlocking = true → c.queue = []
   sendWait : c.waitList ≠ [] → c.recvBlocking = false → c.hasRoom = false
@@ -33,9 +32,9 @@ theorem nextSend_inv {c c1 : Chan} {o} (h : c.Inv) (e : c.nextSend = (c1, o)) : 
   split at e
   · cases e; exact h
   · split at e <;> cases e
-    · obtain ⟨h1, h2, h3, h4⟩ := h
+    · obtain ⟨h2, h3, h4⟩ := h
       constructor <;> simp_all [WithinCap, hasRoom]
-    · obtain ⟨h1, h2, h3, h4⟩ := h
+    · obtain ⟨h2, h3, h4⟩ := h
       constructor <;> simp_all [WithinCap, hasRoom]
 
 theorem nextRecv_inv {c c1 : Chan} {o} (h : c.Inv) (e : c.nextRecv = (c1, o)) : c1.Inv := by
@@ -43,9 +42,9 @@ theorem nextRecv_inv {c c1 : Chan} {o} (h : c.Inv) (e : c.nextRecv = (c1, o)) : 
   split at e
   · cases e; exact h
   · split at e <;> cases e
-    · obtain ⟨h1, h2, h3, h4⟩ := h
+    · obtain ⟨h2, h3, h4⟩ := h
       constructor <;> simp_all [WithinCap, hasRoom]
-    · obtain ⟨h1, h2, h3, h4⟩ := h
+    · obtain ⟨h2, h3, h4⟩ := h
       constructor <;> simp_all [WithinCap, hasRoom]
 
 /-- What `next_recv` returning `None` leaves behind: the flag says "senders". -/
@@ -81,22 +80,21 @@ theorem nextSend_some {c c1 : Chan} {r} (e : c.nextSend = (c1, some r)) :
   · cases e
   · split at e <;> cases e; simp_all
 
-theorem pushWaiter_inv_send {c : Chan} {s} (h : c.Inv) (hs : s ∉ c.waitList)
+theorem pushWaiter_inv_send {c : Chan} {s} (h : c.Inv)
     (hf : c.recvBlocking = false) (hr : c.hasRoom = false) : (c.pushWaiter s).Inv := by
-  obtain ⟨h1, h2, h3, h4⟩ := h
-  constructor <;> simp_all [pushWaiter, WithinCap, hasRoom, List.nodup_append] <;> grind
+  obtain ⟨h2, h3, h4⟩ := h
+  constructor <;> simp_all [pushWaiter, WithinCap, hasRoom] <;> grind
 
-theorem pushWaiter_inv_recv {c : Chan} {s} (h : c.Inv) (hs : s ∉ c.waitList)
+theorem pushWaiter_inv_recv {c : Chan} {s} (h : c.Inv)
     (hf : c.recvBlocking = true) (hq : c.queue = []) : (c.pushWaiter s).Inv := by
-  obtain ⟨h1, h2, h3, h4⟩ := h
-  constructor <;> simp_all [pushWaiter, WithinCap, hasRoom, List.nodup_append] <;> grind
+  obtain ⟨h2, h3, h4⟩ := h
+  constructor <;> simp_all [pushWaiter, WithinCap, hasRoom] <;> grind
 
 theorem cancel_inv {c c1 : Chan} {r s b} (h : c.Inv) (e : c.cancel r s = (c1, b)) : c1.Inv := by
   unfold cancel at e
   split at e <;> cases e
-  · obtain ⟨h1, h2, h3, h4⟩ := h
+  · obtain ⟨h2, h3, h4⟩ := h
     constructor
-    · exact h1.erase s
     · simpa [WithinCap] using h2
     · intro hne hb; apply h3 _ hb; intro hn; simp [hn] at hne
     · intro hne hb; apply h4 _ hb; intro hn; simp [hn] at hne
@@ -113,10 +111,9 @@ theorem sendPre_inv {c c1 : Chan} {m b} (h : c.Inv) (e : c.sendPre m = (c1, b)) 
       have h2 := nextRecv_inv h heq
       have hn := nextRecv_none heq
       split at e <;> cases e
-      · obtain ⟨h1, hcap, h3, h4⟩ := h2
+      · obtain ⟨hcap, h3, h4⟩ := h2
         rename_i hroom
         constructor
-        · exact h1
         · unfold WithinCap at *; unfold hasRoom at hroom
           cases hc : c2.capacity <;> simp_all <;> grind
         · intro hne hb; simp_all
@@ -139,31 +136,92 @@ theorem sendPre_full {c c1 : Chan} {m} (e : c.sendPre m = (c1, .full)) :
       split at e <;> cases e
       simp_all
 
-theorem sendCS_inv {c c1 : Chan} {m me b} (h : c.Inv) (hme : me ∉ c.waitList)
-    (e : c.sendCS m me = (c1, b)) : c1.Inv := by
+theorem sendCS_inv {c c1 : Chan} {m me b} (h : c.Inv) (e : c.sendCS m me = (c1, b)) : c1.Inv := by
   unfold sendCS at e
   split at e
   · rename_i c2 heq; cases e
     have h2 := sendPre_inv h heq
     have hf := sendPre_full heq
-    apply pushWaiter_inv_send h2 _ hf.1 hf.2.1
-    -- `me` is still not listed: `sendPre` never adds a waiter
-    unfold sendPre at heq
-    split at heq
-    · split at heq <;> cases heq
-    · split at heq
-      · cases heq
-      · rename_i c3 heq3
-        have hn := nextRecv_none heq3
-        split at heq <;> cases heq
-        by_cases hb : c.recvBlocking = true
-        · have := (hn.2.2.2.2.2.2 hb).2; simp_all
-        · have := hn.2.2.2.2.2.1 (by simpa using hb); simp_all
+    exact pushWaiter_inv_send h2 hf.1 hf.2.1
   · rename_i r hne
     cases hr : c.sendPre m with
     | mk c2 b2 =>
       rw [hr] at e; cases e
       exact sendPre_inv h hr
+
+theorem recvPre_inv {c c1 : Chan} {slot t ex b} (h : c.Inv) (e : c.recvPre slot t ex = (c1, b)) : c1.Inv := by
+  obtain ⟨hcap, h3, h4⟩ := h
+  unfold recvPre nextSend at e
+  (repeat' (split at e)) <;> simp at e <;> (try obtain ⟨rfl, rfl⟩ := e)
+  all_goals (constructor <;> simp_all [WithinCap, hasRoom] <;> grind)
+
+/-- After `recvPre` answers `empty` the caller may register: flag says receivers, buffer empty. -/
+theorem recvPre_empty {c c1 : Chan} {slot t ex} (e : c.recvPre slot t ex = (c1, .empty)) :
+    c1.recvBlocking = true ∧ c1.queue = [] ∧ c.queue = [] ∧ c.recvCount ≠ 0 ∧ c1.sendCount ≠ 0 ∧
+    c1.capacity = c.capacity ∧ c1.recvCount = c.recvCount ∧ c1.sendCount = c.sendCount := by
+  unfold recvPre at e
+  split at e
+  · cases e
+  · split at e
+    · split at e <;> cases e
+    · rename_i hq
+      split at e
+      · cases e
+      · rename_i c2 heq
+        have hn := nextSend_none heq
+        split at e
+        · cases e
+        · split at e <;> cases e
+          simp_all
+
+theorem recvCS_inv {c c1 : Chan} {slot t ex me b} (h : c.Inv) (e : c.recvCS slot t ex me = (c1, b)) : c1.Inv := by
+  unfold recvCS at e
+  split at e
+  · rename_i c2 heq; cases e
+    have h2 := recvPre_inv h heq
+    have hf := recvPre_empty heq
+    exact pushWaiter_inv_recv h2 hf.1 hf.2.1
+  · rename_i r hne
+    cases hr : c.recvPre slot t ex with
+    | mk c2 b2 =>
+      rw [hr] at e; cases e
+      exact recvPre_inv h hr
+
+theorem drainCS_inv {c c1 : Chan} {q l n} (h : c.Inv) (e : c.drainCS = some (c1, q, l, n)) : c1.Inv := by
+  unfold drainCS popAllSenders at e
+  split at e
+  · cases e
+  · obtain ⟨hcap, h3, h4⟩ := h
+    split at e <;> simp at e <;> obtain ⟨rfl, -⟩ := e
+    · constructor
+      · unfold WithinCap; cases c.capacity <;> simp
+      · intro _ _; rfl
+      · intro _ hb; simp_all
+    · constructor
+      · unfold WithinCap; cases c.capacity <;> simp
+      · intro _ _; rfl
+      · intro hne; simp at hne
+
+theorem closeCS_inv {c c1 : Chan} {l q} (e : c.closeCS = some (c1, l, q)) : c1.Inv := by
+  unfold closeCS at e
+  split at e
+  · cases e
+  · simp at e; obtain ⟨rfl, -⟩ := e
+    constructor
+    · unfold WithinCap; cases c.capacity <;> simp
+    · intro hne; simp at hne
+    · intro hne; simp at hne
+
+theorem cloneCS_inv {c : Chan} {r} (h : c.Inv) : (c.cloneCS r).Inv := by
+  obtain ⟨hcap, h3, h4⟩ := h
+  unfold cloneCS
+  cases r <;> simp only <;> split <;> first | exact ⟨hcap, h3, h4⟩ | (constructor <;> simpa [WithinCap, hasRoom])
+
+theorem dropCS_inv {c : Chan} {r} (h : c.Inv) : (c.dropCS r).1.Inv := by
+  obtain ⟨hcap, h3, h4⟩ := h
+  unfold dropCS terminateAll
+  cases r <;> simp only <;> (repeat' split) <;>
+    first | exact ⟨hcap, h3, h4⟩ | (constructor <;> simp_all [WithinCap, hasRoom])
 
 end Chan
 end Kanal
